@@ -23,11 +23,13 @@ meta["suite_passes_with_change"] = r.returncode == 0
 print("suite with change:", "PASS" if r.returncode == 0 else "FAIL\n" + r.stdout[-800:])
 for d in demos:
     shutil.copy(d, wt)
-r = sh(["go", "test", "-vet=off", "-count=1", "-run", "Demo", "."], wt, timeout=900)
+RACE = ["-race"] if (os.environ.get("SEEDED_RACE") or prop in ("C14", "C15")) else []
+meta["demo_run_with_race_detector"] = bool(RACE)
+r = sh(["go", "test", "-vet=off", "-count=1"] + RACE + ["-run", "Demo", "."], wt, timeout=1800)
 meta["demo_fails_with_change"] = r.returncode != 0
 print("demo with change:", "FAILS (expected)" if r.returncode != 0 else "passes (UNEXPECTED)")
 sh(["git", "checkout", "--", "."], wt)
-r = sh(["go", "test", "-vet=off", "-count=1", "-run", "Demo", "."], wt, timeout=900)
+r = sh(["go", "test", "-vet=off", "-count=1"] + RACE + ["-run", "Demo", "."], wt, timeout=1800)
 meta["demo_passes_without_change"] = r.returncode == 0
 print("demo without change:", "passes (expected)" if r.returncode == 0 else "FAILS (UNEXPECTED)\n" + r.stdout[-800:])
 sh(["git", "clean", "-fdxq"], wt)
@@ -42,7 +44,7 @@ if ok:
         cenv.update(VERIF_REPO=EVAL, VERIF_EVIDENCE_DIR=EVAL + ".evidence", VERIF_REPLAY_DIR=EVAL + ".replays")
     try:
         for c in checks:
-            for tier in ["quick", "thorough"]:
+            for tier in os.environ.get("SEEDED_TIERS", "quick thorough").split():
                 r = subprocess.run(["/verif/check", c, tier], capture_output=True, text=True, timeout=3600, env=cenv)
                 lines = [l for l in r.stdout.splitlines() if l.startswith(("VIOLATION", "  harness", "KNOWN", "INCONCLUSIVE", "ENCODER", "INCOMPLETE", "property="))]
                 meta["checks_run"]["%s %s" % (c, tier)] = {"exit": r.returncode, "lines": lines[:12]}
